@@ -107,11 +107,19 @@ def _job(job):
             g = [t[1] for t in res["tlines"] if t[0] == os_]
             part["samples"].append(dict(model=mname, option_set=name, maxgeom=mg, ample_ngeom=g[0] if g else None,
                                         outcome=cls))
+    # one record per canonical key and job (Part keeps at most 50 records: a key that is hit at every capacity must not
+    # crowd out the others); the record is the smallest failing point
+    agg = {}
     for f, n, l, key, what in res["viol"]:
+        a = agg.setdefault(key, [f, 0, what])
+        if f < a[0]:
+            a[0], a[2] = f, what
+        a[1] += n
+        part.add("violating_points", n)
+    for key, (f, n, what) in sorted(agg.items()):
         os_, name, mg = _locate(res["tlines"], f)
         part.violation(key, "%s: %s (%d capacities of this job)" % (mname, what, n),
                        dict(model=mname, xml=xml, mode=mode, nstep=nstep, option_set=os_, option_set_name=name, maxgeom=mg))
-        part.add("violating_points", n)
     seen = set()
     for pt, rest in res["crashes"]:
         kind, fn, _ = rx.crash_key(rest, objs)
